@@ -1,2 +1,647 @@
-(* C01 deep model (placeholder): Gallina mirror of mpc_compiler.rs compile_to_mpc_graph. *)
-From CC Require Import Base.Prelude Base.Scalar Base.Ty Base.Shape Graph.Value Graph.IR.
+(* C01 deep model: Gallina mirror of the MPC compiler's per-graph step, as a graph-to-graph
+   function on the IR of Graph/IR.v.  Mirrors, function by function,
+     mpc_compiler.rs:220  propagate_private_annotations
+     resharing.rs:16-243  ResharingConfig (local_operation_handler, ensure_dependencies_are_reshared,
+                          compute_graph_resharing, sanity_pass), get_nodes_to_reshare
+     mpc_compiler.rs:355  compile_to_mpc_graph with its apply_op closure
+     mpc_arithmetic.rs:586/591/513 add_mpc / subtract_mpc / general_multiply_mpc (one Custom node
+                          each; the node type is the output type of CustomOperationBody::instantiate,
+                          mpc_arithmetic.rs:18/86/225)
+     resharing.rs:246     reshare;  mpc_compiler.rs:83/198/212 recursively_generate_node_shares /
+                          get_node_shares / get_zero_shares;  mpc_compiler.rs:867 recursively_sum_shares
+   Node types of the emitted graph are computed as Graph::add_node does, by type inference
+   (Graph/Typing.v [infer], tied to the code by C09).
+
+   Fragment: the operations of [mpc_mirrored_op] (everything compile_to_mpc_graph accepts except
+   MixedMultiply, Truncate, A2B, B2A, Join, ApplyPermutation, Sort) over all types.  Operations the compiler itself rejects are answered with [Err] like the code;
+   operations the compiler accepts but this file does not mirror make [mpc_mirrored] false (the tie
+   feeds only graphs with [mpc_mirrored = true], and checks it).  Definitions only. *)
+From CC Require Import Base.Prelude Base.Scalar Base.Ty Base.Shape Graph.Value Graph.IR Graph.Eval Graph.Typing.
+
+(* ---------- sets of node ids (HashSet<Node> of one graph) ---------- *)
+Definition mem (i : Z) (s : list Z) : bool := existsb (Z.eqb i) s.
+Definition set_insert (i : Z) (s : list Z) : list Z := if mem i s then s else i :: s.
+Definition set_remove (i : Z) (s : list Z) : list Z := filter (fun j => negb (j =? i)) s.
+(* the ids of a set in increasing order (what the hook private_and_reshared returns) *)
+Definition sorted_ids (n : Z) (s : list Z) : list Z := filter (fun i => mem i s) (zrange n).
+
+(* state-passing map: the emitted graph is threaded through every helper *)
+Fixpoint mapS {A B S : Type} (f : A -> S -> result (S * B)) (l : list A) (s : S) : result (S * list B) :=
+  match l with
+  | [] => Ok (s, [])
+  | x :: xs => let* (s1, y) := f x s in let* (s2, ys) := mapS f xs s1 in Ok (s2, y :: ys)
+  end.
+
+(* ---------- what is mirrored ---------- *)
+(* operations compile_to_mpc_graph accepts but this model does not mirror *)
+Definition mpc_mirrored_op (o : op) : bool :=
+  match o with
+  | OMixedMultiply | OTruncate _ | OA2B | OB2A _ | OJoin _ _ | OJoinWithColumnMasks _ _
+  | OApplyPermutation _ | OSort _ => false
+  | _ => true
+  end.
+Definition mpc_mirrored (nodes : list node) : bool :=
+  forallb (fun nd => mpc_mirrored_op (n_op nd)) nodes.
+
+(* ---------- mpc_compiler.rs:59 is_one_node_private, :68 are_all_nodes_private ---------- *)
+Definition is_one_node_private (deps : list Z) (priv : list Z) : bool := existsb (fun d => mem d priv) deps.
+Definition are_all_nodes_private (deps : list Z) (priv : list Z) : bool := forallb (fun d => mem d priv) deps.
+
+(* mpc_compiler.rs:220 propagate_private_annotations.  State: private set, use_prf_for_mul, the
+   is_input_private entries not yet consumed.  use_prf_for_b2a / use_prf_for_truncate2k stay false
+   in the fragment (B2A and Truncate are not mirrored). *)
+Definition is_bilinear_all_private_op (o : op) : bool :=
+  match o with OMultiply | ODot | OMatmul | OGemm _ _ => true | _ => false end.
+
+Definition ppa_step (i : Z) (nd : node) (st : list Z * bool * list bool) : result (list Z * bool * list bool) :=
+  let '(priv, mul, flags) := st in
+  let deps := n_deps nd in
+  match n_op nd with
+  | OInput _ =>
+      match flags with
+      | [] => Panic                                           (* is_input_private[input_id] *)
+      | b :: fl => Ok (if b then set_insert i priv else priv, mul, fl)
+      end
+  | OAdd | OSubtract | OMultiply | ODot | OMatmul | OGemm _ _ | OPermuteAxes _ | OArrayToVector
+  | OTupleGet _ | ONamedTupleGet _ | OVectorToArray | OGetSlice _ | OReshape _ | OSum _ | OCumSum _
+  | OGet _ | OCreateTuple | OCreateNamedTuple _ | OCreateVector _ | OStack _ | OConcatenate _ | OZip
+  | ORepeat _ =>
+      let priv' := if is_one_node_private deps priv then set_insert i priv else priv in
+      let mul' := mul || (is_bilinear_all_private_op (n_op nd) && are_all_nodes_private deps priv') in
+      Ok (priv', mul', flags)
+  | OConstant _ _ | OZeros _ | OOnes _ => Ok st
+  | OVectorGet =>                                              (* :326 *)
+      let* d0 := znth deps 0 in
+      let* d1 := znth deps 1 in
+      if mem d1 priv then Err                                  (* VectorGet can't have a private index *)
+      else Ok (if mem d0 priv then set_insert i priv else priv, mul, flags)
+  | _ => Err                                                  (* rejected, or not mirrored *)
+  end.
+
+Fixpoint ppa_loop (nodes : list node) (i : Z) (st : list Z * bool * list bool) : result (list Z * bool * list bool) :=
+  match nodes with
+  | [] => Ok st
+  | nd :: r => let* st' := ppa_step i nd st in ppa_loop r (i + 1) st'
+  end.
+
+Definition propagate_private_annotations (nodes : list node) (is_input_private : list bool) : result (list Z * bool) :=
+  let* (pm, _) := ppa_loop nodes 0 ([], false, is_input_private) in Ok pm.
+
+(* ---------- resharing.rs: the planner ---------- *)
+(* graphs.rs:200 is_broadcasting_called, :213 is_mpc_compiled *)
+Definition is_broadcasting_called (o : op) : bool :=
+  match o with OAdd | OSubtract | OMultiply | OMatmul | OGemm _ _ | OMixedMultiply | OStack _ => true | _ => false end.
+Definition is_mpc_compiled (o : op) : bool :=
+  match o with
+  | OInput _ | OZeros _ | OOnes _ | OAdd | OSubtract | OMultiply | OMixedMultiply | ODot | OMatmul
+  | OGemm _ _ | OTruncate _ | OSum _ | OCumSum _ | OPermuteAxes _ | OGet _ | OGetSlice _ | OReshape _
+  | OStack _ | OConcatenate _ | OConstant _ _ | OA2B | OB2A _ | OCreateTuple | OCreateNamedTuple _
+  | OCreateVector _ | OTupleGet _ | ONamedTupleGet _ | OVectorGet | OZip | ORepeat _ | OArrayToVector
+  | OVectorToArray | OJoin _ _ | OJoinWithColumnMasks _ _ | OApplyPermutation _ | OSort _ => true
+  | _ => false
+  end.
+
+(* resharing.rs:9 ResharingConfig *)
+Record rconfig := mkRC { nodes_to_reshare : list Z; unreshared_nodes : list Z }.
+
+(* resharing.rs:67 ensure_dependencies_are_reshared *)
+Definition ensure_dependencies_are_reshared (nd : node) (c : rconfig) : rconfig :=
+  fold_left (fun c d =>
+               if mem d (unreshared_nodes c)
+               then mkRC (set_insert d (nodes_to_reshare c)) (set_remove d (unreshared_nodes c))
+               else c) (n_deps nd) c.
+
+(* resharing.rs:25 local_operation_handler; the u64 accumulation overflows (debug profile) to Panic *)
+Definition local_operation_handler (nodes : list node) (i : Z) (nd : node) (c : rconfig) : result rconfig :=
+  let deps := n_deps nd in
+  if is_broadcasting_called (n_op nd) then
+    let* unreshared_input_size :=
+      fold_left (fun acc d =>
+                   let* a := acc in
+                   if mem d (unreshared_nodes c)
+                   then let* dn := znth nodes d in
+                        let* s := size_in_bits (n_ty dn) in
+                        if u64_max <? a + s then Panic else Ok (a + s)
+                   else Ok a) deps (Ok 0) in
+    let* output_size := size_in_bits (n_ty nd) in
+    if unreshared_input_size <? output_size then Ok (ensure_dependencies_are_reshared nd c)
+    else if 0 <? unreshared_input_size then Ok (mkRC (nodes_to_reshare c) (set_insert i (unreshared_nodes c)))
+    else Ok c
+  else
+    if existsb (fun d => mem d (unreshared_nodes c)) deps
+    then Ok (mkRC (nodes_to_reshare c) (set_insert i (unreshared_nodes c)))
+    else Ok c.
+
+(* resharing.rs:89-173, one iteration of the loop of compute_graph_resharing *)
+Definition cgr_step (nodes : list node) (priv : list Z) (i : Z) (nd : node) (c : rconfig) : result rconfig :=
+  if negb (mem i priv) then Ok c else
+  if negb (is_mpc_compiled (n_op nd)) then Err else
+  match n_op nd with
+  | OInput _ => Ok c
+  | OAdd | OSubtract | OSum _ | OCumSum _ | OGet _ | OStack _ | OConcatenate _ | OReshape _
+  | OPermuteAxes _ | OZip | ORepeat _ | OTupleGet _ | OCreateNamedTuple _ | ONamedTupleGet _
+  | OVectorToArray | OVectorGet | OCreateTuple | OArrayToVector | OCreateVector _ =>
+      local_operation_handler nodes i nd c
+  | OMultiply | ODot | OMatmul | OGemm _ _ =>
+      if forallb (fun d => mem d priv) (n_deps nd) then
+        let c' := ensure_dependencies_are_reshared nd c in
+        Ok (mkRC (nodes_to_reshare c') (set_insert i (unreshared_nodes c')))
+      else local_operation_handler nodes i nd c
+  | OGetSlice _ => Ok (ensure_dependencies_are_reshared nd c)
+  | _ => Err
+  end.
+
+(* resharing.rs:186 sanity_pass, one iteration *)
+Definition sanity_step (shared : list Z) (i : Z) (nd : node) (c : rconfig) : rconfig :=
+  let deps := n_deps nd in
+  if is_bilinear_all_private_op (n_op nd) && forallb (fun d => mem d shared) deps then c else
+  let dep_unreshared (c : rconfig) := existsb (fun d => mem d (unreshared_nodes c)) deps in
+  let c1 := if mem i (nodes_to_reshare c) && negb (dep_unreshared c)
+            then mkRC (set_remove i (nodes_to_reshare c)) (unreshared_nodes c) else c in
+  if mem i (unreshared_nodes c1) && negb (dep_unreshared c1)
+  then mkRC (nodes_to_reshare c1) (set_remove i (unreshared_nodes c1)) else c1.
+
+Fixpoint cgr_loop (all : list node) (priv : list Z) (nodes : list node) (i : Z) (c : rconfig) : result rconfig :=
+  match nodes with
+  | [] => Ok c
+  | nd :: r => let* c' := cgr_step all priv i nd c in cgr_loop all priv r (i + 1) c'
+  end.
+Fixpoint sanity_loop (shared : list Z) (nodes : list node) (i : Z) (c : rconfig) : rconfig :=
+  match nodes with
+  | [] => c
+  | nd :: r => sanity_loop shared r (i + 1) (sanity_step shared i nd c)
+  end.
+
+(* resharing.rs:79 compute_graph_resharing, :236 get_nodes_to_reshare; [output] is the id of the
+   graph's output node *)
+Definition compute_graph_resharing (nodes : list node) (output : Z) (priv : list Z) : result rconfig :=
+  let* c := cgr_loop nodes priv nodes 0 (mkRC [] []) in
+  let c1 := if mem output (unreshared_nodes c)
+            then mkRC (set_insert output (nodes_to_reshare c)) (unreshared_nodes c) else c in
+  Ok (sanity_loop priv nodes 0 c1).
+Definition get_nodes_to_reshare (nodes : list node) (output : Z) (priv : list Z) : result (list Z) :=
+  let* c := compute_graph_resharing nodes output priv in Ok (nodes_to_reshare c).
+
+(* the observation of the hook verif_hooks::private_and_reshared: both sets, sorted *)
+Definition private_and_reshared (nodes : list node) (output : Z) (is_input_private : list bool)
+  : result (list Z * list Z) :=
+  let* (priv, _) := propagate_private_annotations nodes is_input_private in
+  let* r := get_nodes_to_reshare nodes output priv in
+  Ok (sorted_ids (zlen nodes) priv, sorted_ids (zlen nodes) r).
+
+(* ---------- emitting nodes into the output graph ---------- *)
+(* the three gadgets emitted as Custom nodes *)
+Inductive gadget := GAdd | GSub | GBil (prim : op).
+
+Definition bool_name (b : bool) : string := if b then "true"%string else "false"%string.
+(* CustomOperationBody::get_name, mpc_arithmetic.rs:76,156,290,304,318,339 *)
+Definition gadget_name (g : gadget) : string :=
+  match g with
+  | GAdd => "AddMPC"
+  | GSub => "SubtractMPC"
+  | GBil OMultiply => "MultiplyMPC"
+  | GBil ODot => "DotMPC"
+  | GBil OMatmul => "MatmulMPC"
+  | GBil (OGemm a b) => "GemmMPC-" ++ bool_name a ++ "-" ++ bool_name b
+  | GBil _ => "?"
+  end%string.
+
+(* mpc_compiler.rs:40 check_private_tuple *)
+Definition check_private_tuple (v : list ty) : result unit :=
+  if negb (zlen v =? 3) then Err else
+  match v with
+  | t :: rest => if forallb (fun c => ty_eqb t c) rest then Ok tt else Err
+  | [] => Err
+  end.
+
+Definition parties : list Z := [0; 1; 2].
+Definition tuple_of_shares (rs : list ty) : result ty := infer OCreateTuple rs.
+Definition tget (t : ty) (i : Z) : result ty := infer (OTupleGet i) [t].
+
+(* output type of AddMPC / SubtractMPC / instantiate_bilinear_product::instantiate on the argument
+   types: the type of the output node of the instantiated graph (type_inference.rs:1664) *)
+Definition gadget_ty (g : gadget) (ts : list ty) : result ty :=
+  match ts with
+  | [t0; t1] =>
+      match t0, t1 with
+      | TTuple v0, TTuple v1 =>
+          let* _ := check_private_tuple v0 in
+          let* _ := check_private_tuple v1 in
+          let* rs :=
+            mapM (fun i =>
+                    match g with
+                    | GAdd => let* a := tget t0 i in let* b := tget t1 i in infer OAdd [a; b]
+                    | GSub => let* a := tget t0 i in let* b := tget t1 i in infer OSubtract [a; b]
+                    | GBil prim =>                        (* private_product, mpc_arithmetic.rs:197 *)
+                        let ip1 := (i + 1) mod 3 in
+                        let* x_i := tget t0 i in let* x_ip1 := tget t0 ip1 in
+                        let* y_i := tget t1 i in let* y_ip1 := tget t1 ip1 in
+                        let* z1 := infer OAdd [y_i; y_ip1] in
+                        let* z2 := infer prim [x_i; z1] in
+                        let* z3 := infer prim [x_ip1; y_i] in
+                        infer OAdd [z2; z3]
+                    end) parties in
+          tuple_of_shares rs
+      | TTuple v0, (TScalar _ | TArray _ _) =>
+          let* _ := check_private_tuple v0 in
+          let* rs :=
+            mapM (fun i =>
+                    let* a := tget t0 i in
+                    match g with
+                    | GAdd => infer OAdd [a; t1]
+                    | GSub => infer OSubtract [a; t1]
+                    | GBil prim => infer prim [a; t1]      (* mixed_product, swap_flag = false *)
+                    end) parties in
+          tuple_of_shares rs
+      | (TScalar _ | TArray _ _), TTuple v1 =>
+          let* _ := check_private_tuple v1 in
+          let* rs :=
+            mapM (fun i =>
+                    let* b := tget t1 i in
+                    match g with
+                    | GAdd => infer OAdd [b; t0]           (* adder(i1, i0, false) *)
+                    | GSub => infer OSubtract [t0; b]
+                    | GBil prim => infer prim [t0; b]      (* mixed_product, swap_flag = true *)
+                    end) parties in
+          tuple_of_shares rs
+      | (TScalar _ | TArray _ _), (TScalar _ | TArray _ _) =>
+          match g with
+          | GAdd => infer OAdd [t0; t1]
+          | GSub => infer OSubtract [t0; t1]
+          | GBil prim => infer prim [t0; t1]
+          end
+      | _, _ => Panic                                      (* "Inconsistency with type checker" *)
+      end
+  | _ => Err
+  end.
+
+Definition out_ty (out : list node) (d : Z) : result ty := let* n := znth out d in Ok (n_ty n).
+
+(* graphs.rs:3389 Graph::add_node: the new node gets the next id, its type is inferred from the
+   types of its dependencies; [an] are the annotations attached right after creation *)
+Definition emit (o : op) (deps : list Z) (an : list annot) (out : list node) : result (list node * Z) :=
+  let* ts := mapM (out_ty out) deps in
+  let* t := infer o ts in
+  Ok (out ++ [mkNode o deps [] an t], zlen out).
+
+(* graphs.rs:3313 custom_op *)
+Definition emit_gadget (g : gadget) (deps : list Z) (out : list node) : result (list node * Z) :=
+  let* ts := mapM (out_ty out) deps in
+  let* t := gadget_ty g ts in
+  let* t' := register t in
+  Ok (out ++ [mkNode (OCustom (gadget_name g)) deps [] [] t'], zlen out).
+
+(* graphs.rs:1342 Node::add_annotation: appended to the annotations of that node *)
+Definition add_annotation (id : Z) (a : annot) (out : list node) : result (list node) :=
+  let* nd := znth out id in
+  let n := Z.to_nat id in
+  Ok (firstn n out ++ [mkNode (n_op nd) (n_deps nd) (n_gdeps nd) (n_annots nd ++ [a]) (n_ty nd)] ++ skipn (S n) out).
+
+(* ---------- the bodies of the gadgets: CustomOperationBody::instantiate ---------- *)
+(* mpc_arithmetic.rs:33 the adder closure of AddMPC::instantiate *)
+Definition adder_body (l r : Z) (is_r_private : bool) (out : list node) : result (list node * Z) :=
+  let* (out1, outputs) :=
+    mapS (fun i out =>
+            let* (o1, a0i) := emit (OTupleGet i) [l] [] out in
+            if is_r_private then
+              let* (o2, a1i) := emit (OTupleGet i) [r] [] o1 in emit OAdd [a0i; a1i] [] o2
+            else if i =? 0 then emit OAdd [a0i; r] [] o1
+            else let* tr := out_ty o1 r in
+                 let* (o2, z) := emit (OZeros tr) [] [] o1 in emit OAdd [a0i; z] [] o2)
+         parties out in
+  emit OCreateTuple outputs [] out1.
+
+(* mpc_arithmetic.rs:102-146 the four cases of SubtractMPC::instantiate *)
+Definition subtract_body (t0 t1 : ty) (i0 i1 : Z) (out : list node) : result (list node * Z) :=
+  match t0, t1 with
+  | TTuple v0, TTuple v1 =>
+      let* _ := check_private_tuple v0 in
+      let* _ := check_private_tuple v1 in
+      let* (out1, outputs) :=
+        mapS (fun i out =>
+                let* (o1, a0i) := emit (OTupleGet i) [i0] [] out in
+                let* (o2, a1i) := emit (OTupleGet i) [i1] [] o1 in
+                emit OSubtract [a0i; a1i] [] o2) parties out in
+      emit OCreateTuple outputs [] out1
+  | TTuple v0, (TScalar _ | TArray _ _) =>
+      let* _ := check_private_tuple v0 in
+      let* (o0, zero) := emit (OZeros t1) [] [] out in
+      let* (out1, outputs) :=
+        mapS (fun i out =>
+                let* (o1, a0i) := emit (OTupleGet i) [i0] [] out in
+                if i =? 0 then emit OSubtract [a0i; i1] [] o1 else emit OSubtract [a0i; zero] [] o1) parties o0 in
+      emit OCreateTuple outputs [] out1
+  | (TScalar _ | TArray _ _), TTuple v1 =>
+      let* _ := check_private_tuple v1 in
+      let* (o0, zero) := emit (OZeros t0) [] [] out in
+      let* (out1, outputs) :=
+        mapS (fun i out =>
+                let* (o1, a1i) := emit (OTupleGet i) [i1] [] out in
+                if i =? 0 then emit OSubtract [i0; a1i] [] o1 else emit OSubtract [zero; a1i] [] o1) parties o0 in
+      emit OCreateTuple outputs [] out1
+  | (TScalar _ | TArray _ _), (TScalar _ | TArray _ _) => emit OSubtract [i0; i1] [] out
+  | _, _ => Panic
+  end.
+
+(* mpc_arithmetic.rs:173 mixed_product *)
+Definition mixed_product_body (prim : op) (node0 node1 : Z) (swap_flag : bool) (out : list node) : result (list node * Z) :=
+  let* (out1, outputs) :=
+    mapS (fun i out =>
+            if swap_flag then
+              let* (o1, share) := emit (OTupleGet i) [node1] [] out in emit prim [node0; share] [] o1
+            else
+              let* (o1, share) := emit (OTupleGet i) [node0] [] out in emit prim [share; node1] [] o1)
+         parties out in
+  emit OCreateTuple outputs [] out1.
+
+(* mpc_arithmetic.rs:197 private_product *)
+Definition private_product_body (prim : op) (node0 node1 : Z) (out : list node) : result (list node * Z) :=
+  let* (out1, shares) :=
+    mapS (fun i out =>
+            let* (o1, s0) := emit (OTupleGet i) [node0] [] out in
+            let* (o2, s1) := emit (OTupleGet i) [node1] [] o1 in
+            Ok (o2, (s0, s1))) parties out in
+  let shares0 := map fst shares in
+  let shares1 := map snd shares in
+  let* (out2, z_shares) :=
+    mapS (fun i out =>
+            let ip1 := (i + 1) mod 3 in
+            let* x_i := znth shares0 i in let* x_ip1 := znth shares0 ip1 in
+            let* y_i := znth shares1 i in let* y_ip1 := znth shares1 ip1 in
+            let* (o1, z1) := emit OAdd [y_i; y_ip1] [] out in
+            let* (o2, z2) := emit prim [x_i; z1] [] o1 in
+            let* (o3, z3) := emit prim [x_ip1; y_i] [] o2 in
+            emit OAdd [z2; z3] [] o3) parties out1 in
+  emit OCreateTuple z_shares [] out2.
+
+(* AddMPC::instantiate :18, SubtractMPC::instantiate :86, instantiate_bilinear_product :225: the
+   instantiated graph (its nodes and the id of its output node) on the argument types *)
+Definition gadget_body (g : gadget) (ts : list ty) : result (list node * Z) :=
+  match ts with
+  | [t0; t1] =>
+      let* (o1, i0) := emit (OInput t0) [] [] [] in
+      let* (o2, i1) := emit (OInput t1) [] [] o1 in
+      match g with
+      | GSub => subtract_body t0 t1 i0 i1 o2
+      | _ =>
+          match t0, t1 with
+          | TTuple v0, TTuple v1 =>
+              let* _ := check_private_tuple v0 in
+              let* _ := check_private_tuple v1 in
+              match g with GBil prim => private_product_body prim i0 i1 o2 | _ => adder_body i0 i1 true o2 end
+          | TTuple v0, (TScalar _ | TArray _ _) =>
+              let* _ := check_private_tuple v0 in
+              match g with GBil prim => mixed_product_body prim i0 i1 false o2 | _ => adder_body i0 i1 false o2 end
+          | (TScalar _ | TArray _ _), TTuple v1 =>
+              let* _ := check_private_tuple v1 in
+              match g with GBil prim => mixed_product_body prim i0 i1 true o2 | _ => adder_body i1 i0 false o2 end
+          | (TScalar _ | TArray _ _), (TScalar _ | TArray _ _) =>
+              match g with GBil prim => emit prim [i0; i1] [] o2 | _ => emit OAdd [i0; i1] [] o2 end
+          | _, _ => Panic
+          end
+      end
+  | _ => Err
+  end.
+
+(* ---------- mpc_compiler.rs:416 the apply_op closure ---------- *)
+(* the dependencies of share i: :437-452 *)
+Fixpoint share_vec (priv : list Z) (i : Z) (olds news : list Z) (out : list node) : result (list node * list Z) :=
+  match olds with
+  | [] => Ok (out, [])
+  | o :: olds' =>
+      match news with
+      | [] => Panic                                          (* node_dependencies[j] *)
+      | nw :: news' =>
+          let* (out1, s) :=
+            if mem o priv then emit (OTupleGet i) [nw] [] out
+            else if i =? 0 then Ok (out, nw)
+            else let* t := out_ty out nw in emit (OZeros t) [] [] out in
+          let* (out2, rest) := share_vec priv i olds' news' out1 in
+          Ok (out2, s :: rest)
+      end
+  end.
+
+(* the dependencies of share i, :430-455: VectorGet takes share i of the vector and the public index *)
+Definition op_shares (priv : list Z) (o : op) (i : Z) (olds news : list Z) (out : list node)
+  : result (list node * list Z) :=
+  match o with
+  | OVectorGet =>
+      let* d0 := znth news 0 in
+      let* (out1, s) := emit (OTupleGet i) [d0] [] out in
+      let* d1 := znth news 1 in
+      Ok (out1, [s; d1])
+  | _ => share_vec priv i olds news out
+  end.
+
+Definition apply_op (priv : list Z) (node_to_be_private : Z) (o : op) (news olds : list Z) (out : list node)
+  : result (list node * Z) :=
+  if negb (mem node_to_be_private priv) then emit o news [] out else
+  match o with
+  | OInput t => emit (OInput (TTuple [t; t; t])) [] [] out
+  | _ =>
+      let* (out1, result_shares) :=
+        mapS (fun i out => let* (out', share) := op_shares priv o i olds news out in emit o share [] out')
+             parties out in
+      emit OCreateTuple result_shares [] out1
+  end.
+
+(* ---------- mpc_compiler.rs:83 recursively_generate_node_shares with node_to_share = None ---------- *)
+Fixpoint generate_zero_shares (t : ty) (prf_keys : list Z) (out : list node) {struct t} : result (list node * list Z) :=
+  match t with
+  | TScalar _ | TArray _ _ =>
+      let* (out1, random_shares) := mapS (fun key out => emit (OPRF 0 t) [key] [] out) prf_keys out in
+      mapS (fun i out =>
+              let* a := znth random_shares i in
+              let* b := znth random_shares ((i + 1) mod 3) in
+              emit OSubtract [a; b] [] out) parties out1
+  | TTuple ts =>
+      let* (out1, subs) :=
+        (fix go (ts : list ty) (out : list node) : result (list node * list (list Z)) :=
+           match ts with
+           | [] => Ok (out, [])
+           | st :: r =>
+               let* (out', s) := generate_zero_shares st prf_keys out in
+               let* (out'', ss) := go r out' in
+               Ok (out'', s :: ss)
+           end) ts out in
+      mapS (fun party out => let* el := mapM (fun s => znth s party) subs in emit OCreateTuple el [] out)
+           parties out1
+  | TVector n et =>                                          (* :142; node_to_share = None: no index constants *)
+      let* (out1, subs) :=
+        (fix rep (k : nat) (out : list node) : result (list node * list (list Z)) :=
+           match k with
+           | O => Ok (out, [])
+           | S k' =>
+               let* (out', s) := generate_zero_shares et prf_keys out in
+               let* (out'', ss) := rep k' out' in
+               Ok (out'', s :: ss)
+           end) (Z.to_nat n) out in
+      mapS (fun party out => let* el := mapM (fun s => znth s party) subs in emit (OCreateVector et) el [] out)
+           parties out1
+  | TNamed fs =>                                             (* :169 *)
+      let* (out1, subs) :=
+        (fix go (fs : list (string * ty)) (out : list node) : result (list node * list (list Z)) :=
+           match fs with
+           | [] => Ok (out, [])
+           | f :: r =>
+               let* (out', s) := generate_zero_shares (snd f) prf_keys out in
+               let* (out'', ss) := go r out' in
+               Ok (out'', s :: ss)
+           end) fs out in
+      mapS (fun party out =>
+              let* el := mapM (fun s => znth s party) subs in
+              emit (OCreateNamedTuple (map fst fs)) el [] out)
+           parties out1
+  end.
+
+(* mpc_compiler.rs:198 get_node_shares / :212 get_zero_shares *)
+Definition get_zero_shares (prf_keys : Z) (t : ty) (out : list node) : result (list node * list Z) :=
+  let* (out1, keys) := mapS (fun i out => emit (OTupleGet i) [prf_keys] [] out) parties out in
+  generate_zero_shares t keys out1.
+
+(* mpc_compiler.rs:867 recursively_sum_shares; [t] is the type of shares[0] *)
+Fixpoint sum_shares (t : ty) (shares : list Z) (out : list node) {struct t} : result (list node * Z) :=
+  match t with
+  | TScalar _ | TArray _ _ =>
+      match shares with
+      | [] => Panic                                          (* shares[0] *)
+      | s0 :: rest =>
+          fold_left (fun acc share => let* (out, res) := acc in emit OAdd [res; share] [] out) rest (Ok (out, s0))
+      end
+  | TTuple ts =>
+      let* (out1, revealed) :=
+        (fix go (ts : list ty) (i : Z) (out : list node) : result (list node * list Z) :=
+           match ts with
+           | [] => Ok (out, [])
+           | st :: r =>
+               let* (out1, sub_shares) := mapS (fun share out => emit (OTupleGet i) [share] [] out) shares out in
+               let* (out2, rv) := sum_shares st sub_shares out1 in
+               let* (out3, rest) := go r (i + 1) out2 in
+               Ok (out3, rv :: rest)
+           end) ts 0 out in
+      emit OCreateTuple revealed [] out1
+  | TVector n et =>                                          (* :890 *)
+      let* (out1, revealed) :=
+        (fix rep (k : nat) (i : Z) (out : list node) : result (list node * list Z) :=
+           match k with
+           | O => Ok (out, [])
+           | S k' =>
+               let* (out0, i_node) := emit (OConstant (TScalar U64) (VArr [i])) [] [] out in
+               let* (out1, sub_shares) := mapS (fun share out => emit OVectorGet [share; i_node] [] out) shares out0 in
+               let* (out2, rv) := sum_shares et sub_shares out1 in
+               let* (out3, rest) := rep k' (i + 1) out2 in
+               Ok (out3, rv :: rest)
+           end) (Z.to_nat n) 0 out in
+      emit (OCreateVector et) revealed [] out1
+  | TNamed fs =>                                             (* :904 *)
+      let* (out1, revealed) :=
+        (fix go (fs : list (string * ty)) (out : list node) : result (list node * list Z) :=
+           match fs with
+           | [] => Ok (out, [])
+           | f :: r =>
+               let* (out1, sub_shares) := mapS (fun share out => emit (ONamedTupleGet (fst f)) [share] [] out) shares out in
+               let* (out2, rv) := sum_shares (snd f) sub_shares out1 in
+               let* (out3, rest) := go r out2 in
+               Ok (out3, rv :: rest)
+           end) fs out in
+      emit (OCreateNamedTuple (map fst fs)) revealed [] out1
+  end.
+
+(* .unwrap() of a Result *)
+Definition unwrap {A} (r : result A) : result A := match r with Err => Panic | x => x end.
+
+(* resharing.rs:246 reshare *)
+Definition reshare (input_shares prf_keys : Z) (out : list node) : result (list node * Z) :=
+  let* (out1, input_shares_vec) :=
+    mapS (fun i out => unwrap (emit (OTupleGet i) [input_shares] [] out)) parties out in
+  let* in0 := znth input_shares_vec 0 in
+  let* t := out_ty out1 in0 in
+  let* (out2, zero_shares) := get_zero_shares prf_keys t out1 in
+  let* (out3, output_shares_vec) :=
+    mapS (fun i out =>
+            let* a := znth input_shares_vec i in
+            let* z := znth zero_shares i in
+            let* (out', masked) := sum_shares t [a; z] out in
+            emit ONOP [masked] [ASend i ((i + 3 - 1) mod 3)] out') parties out2 in
+  emit OCreateTuple output_shares_vec [] out3.
+
+(* ---------- mpc_compiler.rs:355 compile_to_mpc_graph ---------- *)
+Definition is_tuple (t : ty) : bool := match t with TTuple _ => true | _ => false end.
+Definition key_t : ty := TArray [128] Bit.
+Definition keys_type : ty := TTuple [key_t; key_t; key_t].
+
+(* one iteration of the loop :464-728; [omap] is out_mapping restricted to this graph *)
+Definition compile_node (priv resh : list Z) (prf_keys_mul : option Z) (i : Z) (nd : node)
+           (omap : list Z) (out : list node) : result (list node * Z) :=
+  let deps := n_deps nd in
+  let o := n_op nd in
+  let* (out1, new_node) :=
+    match o with
+    | OInput _ => apply_op priv i o [] [] out
+    | OAdd | OSubtract =>
+        let* d0 := znth deps 0 in let* d1 := znth deps 1 in
+        let* a := znth omap d0 in let* b := znth omap d1 in
+        emit_gadget (match o with OAdd => GAdd | _ => GSub end) [a; b] out
+    | OMultiply | ODot | OMatmul | OGemm _ _ =>
+        let* d0 := znth deps 0 in let* d1 := znth deps 1 in
+        let* a := znth omap d0 in let* b := znth omap d1 in
+        (* mpc_arithmetic.rs:513 general_multiply_mpc with reshare_needed = false *)
+        let* ta := out_ty out a in let* tb := out_ty out b in
+        if is_tuple ta && is_tuple tb then
+          match prf_keys_mul with
+          | None => Err
+          | Some _ => emit_gadget (GBil o) [a; b] out
+          end
+        else emit_gadget (GBil o) [a; b] out
+    | OConstant _ _ | OZeros _ | OOnes _ => emit o [] [] out
+    | OPermuteAxes _ | OArrayToVector | OVectorToArray | OTupleGet _ | ONamedTupleGet _ | OGetSlice _
+    | OReshape _ | OSum _ | OCumSum _ | OGet _ | ORepeat _ =>
+        let* d0 := znth deps 0 in
+        let* a := znth omap d0 in
+        apply_op priv d0 o [a] deps out
+    | OVectorGet =>                                            (* :683 *)
+        let* d0 := znth deps 0 in let* d1 := znth deps 1 in
+        let* a := znth omap d0 in let* b := znth omap d1 in
+        apply_op priv d0 o [a; b] [] out
+    | OCreateTuple | OCreateNamedTuple _ | OCreateVector _ | OStack _ | OConcatenate _ | OZip =>
+        let* news := mapM (fun d => znth omap d) deps in
+        apply_op priv i o news deps out
+    | _ => Err
+    end in
+  if mem i priv then
+    let* (out2, new_node2) :=
+      if mem i resh then
+        match prf_keys_mul with
+        | None => Err
+        | Some k => reshare new_node k out1
+        end
+      else Ok (out1, new_node) in
+    let* out3 := add_annotation new_node2 APrivate out2 in
+    Ok (out3, new_node2)
+  else Ok (out1, new_node).
+
+Fixpoint compile_loop (priv resh : list Z) (keys : option Z) (nodes : list node) (i : Z)
+         (omap : list Z) (out : list node) : result (list node * list Z) :=
+  match nodes with
+  | [] => Ok (out, omap)
+  | nd :: r =>
+      let* (out', nn) := compile_node priv resh keys i nd omap out in
+      compile_loop priv resh keys r (i + 1) (omap ++ [nn]) out'
+  end.
+
+(* the compiled node list, the id of its output node, and the node map (source id -> compiled id) *)
+Definition compile_graph_map (nodes : list node) (output : Z) (is_input_private : list bool)
+  : result (list node * Z * list Z) :=
+  let* (priv, use_prf_for_mul) := propagate_private_annotations nodes is_input_private in
+  let* (out0, keys) :=
+    if use_prf_for_mul
+    then let* (o, k) := emit (OInput keys_type) [] [APRFMultiplication] [] in Ok (o, Some k)
+    else Ok ([], None) in
+  let* resh := get_nodes_to_reshare nodes output priv in
+  let* (out, omap) := compile_loop priv resh keys nodes 0 [] out0 in
+  let* oo := znth omap output in
+  Ok (out, oo, omap).
+
+Definition compile_graph (nodes : list node) (output : Z) (is_input_private : list bool)
+  : result (list node * Z) :=
+  let* (r, _) := compile_graph_map nodes output is_input_private in Ok r.
